@@ -1,8 +1,9 @@
 (* Correspondence cases for C17: Frequency / Percentage JSON conversions
-   (primitive floats), HEXBytes text form, key envelopes (AES-128 KEKs). *)
+   (primitive floats), HEXBytes text form, key envelopes (KEKs of every length:
+   AES-128/192/256 and the key-size error), ISO8601Time text form (RFC 3339). *)
 From Coq Require Import List NArith ZArith Floats Bool.
-From LW Require Import Base.Outcome Base.Bytes Base.Hex Crypto.KeyWrap
-  Backend.F64 Backend.HexBytes Backend.KeyEnvelope.
+From LW Require Import Base.Outcome Base.Bytes Base.Hex Crypto.KeyWrap Crypto.KeyWrapAny
+  Backend.F64 Backend.HexBytes Backend.KeyEnvelope Backend.KeyEnvelopeAny Backend.Iso8601.
 Import ListNotations.
 Open Scope Z_scope.
 
@@ -22,7 +23,12 @@ Inductive case :=
 (* NewKeyEnvelope(label, kek, key): observed (KEKLabel, AESKey) and what Unwrap(kek) then returns *)
 | CEnvNew (label kek key : list N) (o : outcome (list N * list N)) (o_unwrap : outcome (list N))
 (* KeyEnvelope{AESKey}.Unwrap(kek) on arbitrary data *)
-| CEnvUnwrap (aeskey kek : list N) (o : outcome (list N)).
+| CEnvUnwrap (aeskey kek : list N) (o : outcome (list N))
+(* ISO8601Time of the instant (unix seconds, zone offset in seconds): text printed by MarshalText and what
+   UnmarshalText makes of that text (Some (unix seconds, zone offset) / None = error) *)
+| CTime (secs off : Z) (text : list N) (parsed : option (Z * Z))
+(* UnmarshalText of an arbitrary text *)
+| CTimeText (text : list N) (parsed : option (Z * Z)).
 
 Definition oz_eqb (a : option Z) (b : Z) : bool := match a with Some x => x =? b | None => false end.
 Definition obeqb := outcome_eqb bytes_eqb.
@@ -30,6 +36,18 @@ Definition opair_eqb (a b : outcome (list N * list N)) : bool :=
   outcome_eqb (fun x y => bytes_eqb (fst x) (fst y) && bytes_eqb (snd x) (snd y)) a b.
 
 Definition in_u32 (z : Z) : bool := (0 <=? z) && (z <? 4294967296).
+
+Definition ozz_eqb (a b : option (Z * Z)) : bool :=
+  match a, b with
+  | Some (s1, o1), Some (s2, o2) => (s1 =? s2) && (o1 =? o2)
+  | None, None => true
+  | _, _ => false
+  end.
+
+(* the instants RFC 3339 can carry: local year 0..9999, zone offset a whole number of minutes, less than a day *)
+Definition rfc3339_range (secs off : Z) : bool :=
+  (-62167219200 <=? secs + off) && (secs + off <=? 253402300799) &&
+  (off mod 60 =? 0) && (-86400 <? off) && (off <? 86400).
 
 Definition check (c : case) : N :=
   match c with
@@ -53,25 +71,42 @@ Definition check (c : case) : N :=
     code (obeqb (hexbytes_unmarshal text) o)
          (match o with Ok bs => Nat.eqb (length (trim0x text)) (2 * length bs) | _ => true end)
   | CEnvNew label kek key o o_unwrap =>
-    code (opair_eqb (new_key_envelope label kek key) o &&
-          match o with Ok (_, w) => obeqb (envelope_unwrap w kek) o_unwrap | _ => true end)
+    (* the model's Unwrap of the observed envelope, evaluated once: compared with the observed
+       Unwrap result (bit 0) and with the key (bit 1: the observed envelope unwraps, by RFC 3394
+       under this KEK, to the key) *)
+    let u := match o with Ok (_, w) => envelope_unwrap_any w kek | _ => Err end in
+    code (opair_eqb (new_key_envelope_any label kek key) o &&
+          match o with Ok _ => obeqb u o_unwrap | _ => true end)
          (match o with
           | Ok (l, w) =>
             if is_nil label || is_nil kek
             then is_nil l && bytes_eqb w key                      (* no label: key in clear *)
             else bytes_eqb l label && obeqb o_unwrap (Ok key)      (* wrapped: unwraps to the key *)
-                 && (match unwrap kek w with Some p => bytes_eqb p key | None => false end)
-          | _ => negb (kek_len_ok kek)
+                 && obeqb u (Ok (copy16 key)) && Nat.eqb (length w) (8 * (length key / 8) + 8)
+          | _ => negb (kek_len_ok kek) && negb (is_nil label || is_nil kek)
           end)
   | CEnvUnwrap aeskey kek o =>
-    code (obeqb (envelope_unwrap aeskey kek) o)
+    (* raw RFC 3394 unwrap evaluated once; [envelope_unwrap_from_raw d (unwrap_raw_any kek d)] is
+       [envelope_unwrap_any d kek] (EnvelopeAnyProofs.envelope_unwrap_any_from_raw) *)
+    let r := unwrap_raw_any kek aeskey in
+    code (obeqb (envelope_unwrap_from_raw aeskey r) o)
          (if Nat.ltb (length aeskey) 16 then true
-          else let '(iv, plain) := unwrap_raw kek aeskey in
-               match o with
-               | Ok k => bytes_eqb iv default_iv && bytes_eqb k (copy16 plain)
-               | Err => negb (bytes_eqb iv default_iv)
-               | _ => false
+          else match r with
+               | None => is_err o                                  (* a KEK length crypto/aes refuses *)
+               | Some (iv, plain) =>
+                 match o with
+                 | Ok k => bytes_eqb iv default_iv && bytes_eqb k (copy16 plain)
+                 | Err => negb (bytes_eqb iv default_iv)
+                 | _ => false
+                 end
                end)
+  | CTime secs off text parsed =>
+    code (bytes_eqb (format_rfc3339 secs off) text && ozz_eqb (parse_rfc3339 text) parsed)
+         (negb (rfc3339_range secs off) ||
+          (match parsed with Some (s', _) => s' =? secs | None => false end   (* the instant survives, to one second *)
+           && (Nat.eqb (length text) 20 || Nat.eqb (length text) 25)))
+  | CTimeText text parsed =>
+    code (ozz_eqb (parse_rfc3339 text) parsed) true
   end.
 
 Definition run_cases := run_with check.
